@@ -250,3 +250,146 @@ def rule_prefix_sum(ctx, config='dev'):
         r.info('%d pair construction(s) with an offset of unrecognised form' % unrec)
     r.check_floor()
     return r
+
+
+# ------------------------------------------------------------------------------------------------------------------------------
+# LAST-PIECE: while some observer reads the *content* of the last piece, every mutator keeps the last piece non-empty
+
+_CONTENT_FREE = ('len', 'last', 'deref', 'as_ref', 'borrow', 'clone', 'iter', 'into_iter', 'map_or', 'map', 'unwrap_or',
+                 'unwrap_or_default', 'copied', 'cloned', 'is_some', 'is_none', 'branch', 'from_residual')
+
+
+def _nzwalk(e):
+    """all sub-expressions of a normalised tree"""
+    if not isinstance(e, tuple):
+        return
+    yield e
+    for x in e[1:]:
+        if isinstance(x, tuple):
+            if x and isinstance(x[0], str):
+                yield from _nzwalk(x)
+            else:
+                for y in x:
+                    yield from _nzwalk(y)
+
+
+def _has_last_piece(e):
+    """does the (normalised) expression denote the `.0` of the pair returned by `last()`"""
+    for x in _nzwalk(e):
+        if isinstance(x, tuple) and x and x[0] == 'field' and x[2] == '0':
+            inner = x[1]
+            while isinstance(inner, tuple) and inner and inner[0] in ('field', 'downcast'):
+                if inner[0] == 'field' and inner[2] != '0':
+                    break
+                inner = inner[1]
+            if isinstance(inner, tuple) and inner and inner[0] == 'call' and inner[1] == 'last':
+                return True
+    return False
+
+
+def _last_piece_readers(f):
+    """bodies that hand the text of the last piece of a chunk vector to something other than `len`"""
+    out = []
+    for b in f.body_list:
+        if b.promoted is not None:
+            continue
+        lasts = [pt for pt, t in b.calls() if t.get('callee') and t['callee']['name'] == 'last' and t['arg_tys']
+                 and 'str, usize)' in t['arg_tys'][0]]
+        if not lasts:
+            continue
+        for pt, t in b.calls():
+            c = t.get('callee')
+            if not c or c['name'] in _CONTENT_FREE:
+                continue
+            for a in t['args']:
+                if _has_last_piece(nz(b.expr_of_operand(a))):
+                    out.append((b, t))
+                    break
+    return out
+
+
+def _piece_nonempty_guarded(b, pt, piece):
+    """is pt dominated by the 'not empty' edge of `is_empty()` / `len() ? 0` applied to this very piece"""
+    dom = b.dom()
+    for d in dom.get(pt[0], set()) | {pt[0]}:
+        t = b.term(d)
+        if t['k'] != 'switch' or t['d']['k'] not in ('copy', 'move') or t['d']['p']['pr']:
+            continue
+        e = nz(b.expr_of_local(t['d']['p']['l']))
+        kind, subj = None, None
+        neg = False
+        while e and e[0] == 'un' and e[1] == 'Not':
+            neg, e = not neg, e[2]
+        if e and e[0] == 'call' and e[1] == 'is_empty' and e[2]:
+            kind, subj = ('not_empty' if neg else 'is_empty'), e[2][0]
+        elif e and e[0] == 'bin' and e[1] in ('Eq', 'Ne', 'Gt', 'Lt'):
+            for side, other in ((e[2], e[3]), (e[3], e[2])):
+                if side and side[0] == 'call' and side[1] == 'len' and other and other[0] == 'const' and other[1] == 0:
+                    base = 'is_empty' if e[1] == 'Eq' else 'not_empty'
+                    kind = ('not_empty' if base == 'is_empty' else 'is_empty') if neg else base
+                    subj = side[2][0]
+        if kind is None or subj != piece:
+            continue
+        zero_t = [x[1] for x in t['targets'] if x[0] == 0]
+        other_t = [t['otherwise']] + [x[1] for x in t['targets'] if x[0] != 0]
+        good = zero_t if kind == 'is_empty' else [x for x in other_t if x not in zero_t]
+        for g in good:
+            if (g == pt[0] or g in dom.get(pt[0], set())) and len(b.preds(g)) == 1 and d != pt[0]:
+                return True
+    return False
+
+
+def rule_last_piece(ctx, config='dev'):
+    f = ctx.facts(config)
+    r = RuleResult('LAST-PIECE', 'while an observer reads the text of the last piece of a rope (ends_with), every function that '
+                                 'grows a rope in place stores a fresh piece as the last one only under a test that it is not empty')
+    readers = _last_piece_readers(f)
+    if not readers:
+        r.info('no observer reads the text of the last piece: nothing to maintain')
+        r.site('(crate): no reader of the last piece', '(crate)', 'ok')
+        return r
+    for rb, t in readers:
+        r.site('%s: reads the text of the last piece (%s)' % (rb.path, t['callee']['name']), t['s'], 'ok')
+    n = 0
+    for b in f.body_list:
+        if b.promoted is not None or b.arg_count < 1:
+            continue
+        if not any(b.local_ty(a).replace("'a", "'_").startswith("&mut rope::Rope<") for a in range(1, b.arg_count + 1)):
+            continue
+        pts = []
+        for bb in range(len(b.blocks)):
+            if b.is_cleanup(bb):
+                continue
+            for i, s in enumerate(b.stmts(bb)):
+                if s['k'] == 'assign' and s['r']['k'] == 'agg' and s['r'].get('ak') == 'tuple' and _is_pair_ty(s['p']['ty']) \
+                        and len(s['r']['ops']) == 2:
+                    pts.append(((bb, i), s))
+        for pt, s in pts:
+            piece_o, off_o = s['r']['ops']
+            piece = nz(b.expr_of_operand(piece_o))
+            element = any(isinstance(x, tuple) and x and x[0] == 'call' and x[1] in ('next', 'index', 'get', 'get_unchecked',
+                                                                                       'last', 'first', 'pop')
+                          for x in _nzwalk(piece))
+            if element:
+                r.site('%s: piece taken over from another chunk vector' % b.path, s['s'], 'ok')
+                n += 1
+                continue
+            first = off_o['k'] == 'const' and off_o.get('int') == 0
+            followed = any(q != pt and (q[0] == pt[0] and q[1] > pt[1] or (q[0] != pt[0] and b.can_reach(pt[0], q[0])))
+                           for q, _ in pts)
+            if first and followed:
+                r.site('%s: first piece, another piece follows' % b.path, s['s'], 'ok')
+                n += 1
+                continue
+            ok = _piece_nonempty_guarded(b, pt, piece)
+            r.site('%s: fresh piece stored as the last one under a non-emptiness test' % b.path, s['s'], 'ok' if ok else 'violation')
+            n += 1
+            if not ok:
+                r.violation('%s:fresh-tail' % b.path, s['s'], b.path,
+                            'a piece that may be empty becomes the last piece of the rope, while %s decides by looking at the last '
+                            'piece only: a text that ends in a line break is then reported as not ending in one (the replay of a '
+                            'cached source and the line bookkeeping of composites ask exactly that)' % readers[0][0].path,
+                            reader=readers[0][0].path)
+    r.floor = len(readers) + 6
+    r.check_floor()
+    return r
